@@ -470,9 +470,29 @@ pub fn gen_shard(data_seed: u64, mode: u8, index: usize, len: usize) -> Vec<u8> 
                 _ => p.fill(&mut v),
             }
         }
+        4 => fill_lanes(&mut Prng::new(simcore::prng::mix(&[data_seed, index as u64, 4])), &mut v),
         _ => Prng::new(simcore::prng::mix(&[data_seed, index as u64])).fill(&mut v),
     }
     v
+}
+
+/// Record-like data: every 16-byte lane is all zero, all non-zero, or arbitrary (zeroed headers, padding, text next to
+/// binary), so that whole SIMD lanes - not only single symbols or whole shards - hold the special value zero.
+pub fn fill_lanes(p: &mut Prng, buf: &mut [u8]) {
+    for lane in buf.chunks_mut(16) {
+        match p.below(5) {
+            0 | 1 => lane.fill(0),
+            2 | 3 => {
+                p.fill(lane);
+                for b in lane.iter_mut() {
+                    if *b == 0 {
+                        *b = 0x80;
+                    }
+                }
+            }
+            _ => p.fill(lane),
+        }
+    }
 }
 
 pub fn digest(shards: &[Vec<u8>]) -> u64 {
